@@ -250,6 +250,7 @@ Proof.
   - intros a' x. bal_rw. rewrite Hdi, Hdo. ledger.
   - intros d. bal_rw. rewrite Hdo. ledger.
   - repeat split; reflexivity.
+  - congruence.
 Qed.
 
 Lemma create_h_effect c s f a e ain aout s' :
